@@ -32,7 +32,7 @@ def register(PROPS, h):
               "directory disappears only if the local node had no rad/sigrefs before; no panic. Non-trivial = at least one "
               "namespace was actually removed; distinct by case seed."),
         assumptions=[TB, "namespaces are enumerated from raw reference names refs/namespaces/<id>/..."],
-        gates=dict(quick={"cases.with-namespaces-removed": 200, "repository-removed": 30, "cases.local-not-delegate": 100, "cases.local-without-sigrefs": 30},
+        gates=dict(quick={"cases.with-namespaces-removed": 200, "repository-removed": 20, "cases.local-not-delegate": 100, "cases.local-without-sigrefs": 12, "cases.delegate-added-after-creation": 100},
                    thorough={"cases.with-namespaces-removed": 5_000, "repository-removed": 500}),
         runs=dict(quick=[native("h-git", "C28")],
                   thorough=[native("h-git", "C28"), native("h-git", "C28", profile="release"), valgrind("h-git", "C28", cases=48, shards=16)]),
